@@ -12,9 +12,12 @@
 (*             TWO levels; bubble_up: 1 + 1 per two levels; up_heapify =   *)
 (*             bubble_up + two trickle-downs; find_max: 1                  *)
 (*                                                   =>  <= 8 H + 8        *)
-(*  rebuilds   Floyd's heap_build: max-heap <= 2 n; min-max <= 7 per node  *)
-(*             pair of levels                        =>  <= 3 n + 4 resp.  *)
-(*                                                       8 n + 16          *)
+(*  rebuilds   Floyd's heap_build: max-heap <= 2 n; min-max: a node of     *)
+(*             height 1 costs 2, height 2 costs 7, then +2 / +5 per level  *)
+(*             alternately, summing to about 3 n     =>  <= 3 n + 4 resp.  *)
+(*                                                       5 n + 16          *)
+(*  (measured on the pinned code up to n = 2^16: max-heap <= 1.9 H and     *)
+(*   1.7 n, min-max <= 3.6 H and 2.6 n)                                    *)
 (* with H = floor(log2(n + 1)) + 1.  MCQueue checks them against the exact *)
 (* worst case of the modelled algorithms for every reachable state of the  *)
 (* exhaustive universes; TraceCost checks them against the comparison      *)
@@ -34,7 +37,7 @@ OneOps  == {"peek_max", "peek_max_mut"}
 LinOps  == {"from_vec", "from_iter", "append", "retain", "retain_mut", "iter_mut", "convert", "de", "roundtrip"}
 
 BoundLog(kind, n) == IF kind = "pq" THEN 3 * H(n) + 2 ELSE 8 * H(n) + 8
-BoundLin(kind, n) == IF kind = "pq" THEN 3 * n + 4 ELSE 8 * n + 16
+BoundLin(kind, n) == IF kind = "pq" THEN 3 * n + 4 ELSE 5 * n + 16
 
 \* -1: no bound claimed for this operation
 Bound(kind, op, n) ==
